@@ -194,6 +194,8 @@ def check(rep: Report, ctx: Ctx) -> None:
                 for g in guards)
             ok = tol and cfg.every_path_passes(
                 ENTRY, EXIT, {cfg.node(guards[0])})
+            if ok:
+                wn = cfg.node(guards[0])
         rep.ob("R10.4", "every normal path of __exit__ flushes", ok,
                fi=exit_, node=wc[0],
                detail="the wrapper call is on every path from entry to "
